@@ -445,6 +445,64 @@ def rule_D(ck, units):
                                              'of exactly coarse_enough rows is neither coarsened nor solved directly' % (f.where(bad[0][0]), bad[0][1], bad[0][2]))
 
 
+def rule_G(ck, units):
+    """G.rebuild-unconditional: amg::rebuild(A') recomputes every level - every path from the entry of rebuild(shared_ptr, bprm) to a
+    normal return passes through the loop over the levels that calls level::rebuild (no shortcut on pointer identity, sizes, flags: a
+    matrix updated in place and handed in again through the same pointer still has new values).  Exceptional exits (precondition) aside."""
+    from effects import locate
+    ck.rule('G.rebuild-unconditional', 'amg::rebuild / mpi::amg::rebuild: every normally returning path runs the loop over the levels that calls level::rebuild (must-pass-through on the CFG)', 1)
+    done = set()
+    for u in units.values():
+        for f in u.funcs:
+            if f.q not in ('amgcl::amg::rebuild', 'amgcl::mpi::amg::rebuild') or f.cfg is None or f.cls in done:
+                continue
+            calls = [c for c in f.calls() if c.get('m') == 'rebuild' and c.get('obj') is not None and c['i'] in locate(f)
+                     and any(a['k'] in ('rfor', 'for', 'while') for a in f.ancestors(c))]
+            if not calls:
+                continue       # the overload that only forwards
+            done.add(f.cls)
+            loc = locate(f)
+            must = {loc[c['i']][0] for c in calls}
+            cfg = f.cfg
+            seen, stack = set(), [cfg.entry]
+            reach_exit = False
+            while stack:
+                b = stack.pop()
+                if b in seen or b in must:
+                    continue
+                seen.add(b)
+                if b == cfg.exit:
+                    reach_exit = True
+                    break
+                stack.extend(s_ for s_ in cfg.succ[b] if s_ is not None)
+            # an empty hierarchy (zero levels) skips the loop body legitimately: the loop HEADER must still be passed
+            if reach_exit:
+                loops = [a for c in calls for a in f.ancestors(c) if a['k'] in ('rfor', 'for', 'while')]
+                hdr = set()
+                for L in loops:
+                    for key in ('c', 'range', 'inc'):
+                        if L.get(key) is not None and isinstance(L[key], dict) and L[key].get('i') in loc:
+                            hdr.add(loc[L[key]['i']][0])
+                    # blocks whose terminator is the loop statement
+                    for b, blk in cfg.blocks.items():
+                        if blk.get('term') == L['i']:
+                            hdr.add(b)
+                seen, stack, reach_exit = set(), [cfg.entry], False
+                while stack:
+                    b = stack.pop()
+                    if b in seen or b in hdr:
+                        continue
+                    seen.add(b)
+                    if b == cfg.exit:
+                        reach_exit = True
+                        break
+                    stack.extend(s_ for s_ in cfg.succ[b] if s_ is not None)
+            rets = [n for n in f.returns()]
+            ck.ob('G.rebuild-unconditional', f.cls, f.where(), not reach_exit, '' if not reach_exit else
+                  'rebuild can return%s without running the loop over the levels: the coarse operators keep the values of the old matrix' % (
+                      (' at %s' % f.where(rets[0])) if rets else ''))
+
+
 def rule_F(ck, units):
     ck.rule('F.coarse-operator-sorted', 'every matrix obtained from coarse_operator inside the hierarchy code (step_down at setup, level::rebuild afterwards) is passed to sort_rows before it '
                                         'is returned to become the next level: setup and rebuild hand the same (row-sorted) matrix to order-sensitive smoothers', 2)
@@ -499,6 +557,7 @@ def main(tier):
     rule_C(ck, units)
     rule_D(ck, units)
     rule_F(ck, units)
+    rule_G(ck, units)
     # the product kernels behind R*(A*P): same operands to either SpGEMM kernel, and (entry of left matrix) * (entry of right matrix) (shared with C08)
     import c08
     c08.rule_dispatch(ck, units)
